@@ -49,6 +49,7 @@ func zzLastRestart(prop string) {
 	}
 	anyRestart := false
 	var latest time.Time
+	sidecarIsInit := nondet.Bool("sidecarIsANativeSidecar")
 	for i := 0; i < nPods; i++ {
 		ni := NewNodeItem(&corev1.Node{ObjectMeta: metav1.ObjectMeta{Name: zzNodeName(i)}}, nil)
 		params.NodeByName[ni.Node.Name] = ni
@@ -67,7 +68,13 @@ func zzLastRestart(prop string) {
 				}
 				anyRestart = true
 			}
-			p.Status.ContainerStatuses = append(p.Status.ContainerStatuses, cs)
+			// the sidecar may be a native sidecar (an init container with restartPolicy Always): its status
+			// is reported among the init containers, and its restarts count like any other
+			if cn == "sidecar" && sidecarIsInit {
+				p.Status.InitContainerStatuses = append(p.Status.InitContainerStatuses, cs)
+			} else {
+				p.Status.ContainerStatuses = append(p.Status.ContainerStatuses, cs)
+			}
 		}
 		params.PodByNodeName[ni] = p
 	}
